@@ -74,8 +74,11 @@ type SimConfig struct {
 	// OnSync, if set, runs synchronously inside the engine's OnTableUpdated callback (on the engine's goroutine,
 	// with the live table) before the snapshot is recorded: this is where actors are fed, exactly like the
 	// repository's own actor tests do.
-	OnSync     func(t *pt.Table)
-	LightTrace bool // keep only compact trace (drop raw JSON of old events)
+	OnSync func(t *pt.Table)
+	// OnSyncAfter is like OnSync but runs after the snapshot has been recorded in the trace (a subscriber that may block
+	// inside the callback must not hide the snapshot from the monitors)
+	OnSyncAfter func(t *pt.Table)
+	LightTrace  bool // keep only compact trace (drop raw JSON of old events)
 }
 
 // Sim owns one table engine plus the spies around it.
@@ -182,6 +185,11 @@ func NewSim(cfg SimConfig, seed int64) (*Sim, error) {
 	s := &Sim{Cfg: cfg, R: rand.New(rand.NewSource(seed)), seen: map[string]bool{}, ch: make(chan *Ev, 1<<16), jr: rand.New(rand.NewSource(seed ^ 0x5eed))}
 	opts := pt.NewTableEngineOptions()
 	opts.GameContinueInterval = cfg.Interval
+	if seed&1 == 1 {
+		// options built as a literal: the open-game timeout field stays at its zero value. The engine documents a fixed
+		// 2 s gate timeout and never reads the field, so every value is a legitimate configuration.
+		opts = &pt.TableEngineOptions{GameContinueInterval: cfg.Interval}
+	}
 	be := cfg.Backend
 	if be == nil {
 		be = pt.NewNativeGameBackend()
@@ -193,6 +201,9 @@ func NewSim(cfg SimConfig, seed int64) (*Sim, error) {
 			cfg.OnSync(t)
 		}
 		s.pushTable(EvTable, "", t)
+		if cfg.OnSyncAfter != nil {
+			cfg.OnSyncAfter(t)
+		}
 	})
 	te.OnTableStateUpdated(func(ev string, t *pt.Table) { s.pushTable(EvState, ev, t) })
 	te.OnTableErrorUpdated(func(t *pt.Table, err error) {
